@@ -48,6 +48,30 @@ func renderTo(reg *template.Registry, name string, d data.Map, w interface{ Writ
 	return soyhtml.NewTofu(reg).NewRenderer(name).Inject(data.Map{}).Execute(w, d)
 }
 
+// renderToMsgs renders with the identity translation of every message of the bundle (the translated-message
+// path of the interpreter: evalMsgParts, plural selection through the bundle).
+func renderToMsgs(reg *template.Registry, name string, d data.Map, w interface{ Write([]byte) (int, error) }) error {
+	return soyhtml.NewTofu(reg).NewRenderer(name).Inject(data.Map{}).WithMessages(translationsAll(reg)).Execute(w, d)
+}
+
+// c12Probe: long autoescaped values (an escaper that buffers or chunks its output has more than one write per
+// value), a translated plural message with literal text in every case, content blocks.
+const c12Probe = `{namespace cprobe}
+
+/**
+ * @param long
+ * @param n
+ */
+{template .long}
+{$long}|{msg desc="m"}{plural $n}{case 0}no items at all{case 1}one item only{default}{$n} items of text{/plural}{/msg}|{$long|escapeHtml}|{let $c}in {$long|truncate:150} out{/let}{$c}|tail {$n}
+{/template}
+`
+
+var c12LongValues = []string{
+	strings.Repeat("abcdefghij", 13)[:123], strings.Repeat("x", 127), strings.Repeat("y", 128), strings.Repeat("z", 129), strings.Repeat("<&>\"'", 30),
+	strings.Repeat("plain text with a <tag> & an \"attr\" ", 9), strings.Repeat("é日😀", 40), strings.Repeat("w", 122) + "<", strings.Repeat("w", 255) + "&" + strings.Repeat("v", 130),
+}
+
 func init() {
 	implOps["execw"] = func(f []string) string {
 		reg, err := compileCached(f[0])
@@ -59,7 +83,11 @@ func init() {
 		room, _ := strconv.Atoi(f[4])
 		failAt, _ := strconv.Atoi(f[5])
 		w := &faultWriter{room: room, failAt: failAt}
-		err = renderTo(reg, string(name), dataFromJSON(string(dj)), w)
+		if len(f) > 6 && f[6] == "msgs" {
+			err = renderToMsgs(reg, string(name), dataFromJSON(string(dj)), w)
+		} else {
+			err = renderTo(reg, string(name), dataFromJSON(string(dj)), w)
+		}
 		if err != nil {
 			return "err " + hx(w.accepted)
 		}
@@ -102,18 +130,44 @@ func genC12(g *G) {
 	bg := newBundleGen(g.R, bundleOpts{msgs: true, directives: true, calls: true})
 	for i := 0; i < n; i++ {
 		b := bg.bundle()
-		fs := b.sources()
+		fs := append(b.sources(), srcFile{"cprobe.soy", c12Probe})
 		reg, err := compileBundle(fs)
 		if err != nil {
 			continue
 		}
 		enc := encSources(fs)
+		type tcase struct {
+			name, dj string
+			msgs     bool
+		}
+		var tcs []tcase
 		for _, f := range b.files {
 			for _, t := range f.tmpls {
-				dm := bg.dataFor(t)
-				dj := dataToJSON(dm)
+				dj := dataToJSON(bg.dataFor(t))
+				tcs = append(tcs, tcase{t.full(), dj, false})
+				if strings.Contains(f.source(), "{msg") {
+					tcs = append(tcs, tcase{t.full(), dj, true})
+				}
+			}
+		}
+		if i%4 == 0 {
+			lv := c12LongValues[(i/4)%len(c12LongValues)]
+			for _, n := range []int64{0, 1, 5} {
+				dj := dataToJSON(map[string]interface{}{"long": lv, "n": n})
+				tcs = append(tcs, tcase{"cprobe.long", dj, false}, tcase{"cprobe.long", dj, true})
+			}
+		}
+		for _, tc := range tcs {
+			{
+				t := tc
+				dj := tc.dj
+				render := renderTo
+				msgsField := "-"
+				if tc.msgs {
+					render, msgsField = renderToMsgs, "msgs"
+				}
 				rec := &recWriter{}
-				if class := safely(func() error { return renderTo(reg, t.full(), dataFromJSON(dj), rec) }); class != "OK" {
+				if class := safely(func() error { return render(reg, t.name, dataFromJSON(dj), rec) }); class != "OK" {
 					continue // the fault-free run itself fails: not a C12 case
 				}
 				var chunks []string
@@ -128,10 +182,10 @@ func genC12(g *G) {
 				}
 				mk := func(room, failAt int, class string) {
 					g.Add(Case{
-						Req:   req("execw", enc, hxs(t.full()), hxs(dj), cw, strconv.Itoa(room), strconv.Itoa(failAt)),
+						Req:   req("execw", enc, hxs(t.name), hxs(dj), cw, strconv.Itoa(room), strconv.Itoa(failAt), msgsField),
 						NT:    len(chunks) >= 3 && (failAt > 0 && failAt < len(chunks)-1 || failAt < 0 && room > 0 && room < total),
 						Class: class,
-						Note:  t.full() + " room=" + strconv.Itoa(room) + " failAt=" + strconv.Itoa(failAt) + " bundle#" + strconv.Itoa(i),
+						Note:  t.name + " room=" + strconv.Itoa(room) + " failAt=" + strconv.Itoa(failAt) + " msgs=" + msgsField + " bundle#" + strconv.Itoa(i),
 					})
 				}
 				// every write-call index
@@ -145,6 +199,16 @@ func genC12(g *G) {
 				}
 				for off := 0; off <= total; off += step {
 					mk(off, -1, "short-capacity")
+				}
+				if step > 1 {
+					// buffer-size boundaries: an escaper or writer that flushes every 2^k bytes
+					for _, base := range []int{64, 128, 256, 384, 512, 1024} {
+						for off := base - 6; off <= base+2; off++ {
+							if off >= 0 && off <= total && off%step != 0 {
+								mk(off, -1, "short-capacity-boundary")
+							}
+						}
+					}
 				}
 			}
 		}
